@@ -453,6 +453,65 @@ def scenario_burst(rec: Recorder, role: str, rnd: random.Random) -> None:
         rec.recv(stream[cut:])
 
 
+def confluence_checks(rep: C.Report, seed: int) -> None:
+    """C02 for streams that END the session in their middle (a termination, a protocol violation or a malformed unit with
+    valid units after it): however such a stream is cut, the session must end up in the same state - closed, with a protocol
+    error raised at some point.  (What receive() returns before it raises does depend on the cut - the exception replaces
+    the return value of that call - so only the end state is compared.)  Evaluated here across deliveries of the same
+    stream; the single-trace clauses of SessionTrace.tla cannot see a dependence on the cut."""
+    import sansldap._messages as M
+
+    rnd = random.Random(seed * 29 + 11)
+    ok = M.LDAPResult(M.LDAPResultCode(0), "", "", None)
+    n = 0
+    for role in ("server", "client"):
+        for variant in range(4):
+            def fresh() -> t.Tuple[t.Any, t.List[int]]:
+                s = sess.new_session(role)
+                ids: t.List[int] = []
+                if role == "client":
+                    ids = [s.extended_request("1.2.3", None), s.search_request("dc=x")]
+                    s.data_to_send()
+                return s, ids
+
+            _, ids0 = fresh()
+            opts = M.PackingOptions()
+            if role == "server":
+                first, last = M.ExtendedRequest(1, [], "1.2.3", b"a").pack(opts), M.SearchRequest(3, [], "dc=x", M.SearchScope.BASE, M.DereferencingPolicy.NEVER, 0, 0, False, None, []).pack(opts) \
+                    if False else M.ExtendedRequest(3, [], "1.2.4", None).pack(opts)
+                middle = (M.UnbindRequest(2, []).pack(opts), M.ExtendedResponse(0, [], M.LDAPResult(M.LDAPResultCode(52), "", "bye", None), sess.NOTICE, None).pack(opts),
+                          M.BindRequest(2, [], 3, "", __import__("sansldap").SimpleCredential("p")).pack(opts), b"\x30\x03\x02\x01\x05")[variant]
+            else:
+                first, last = M.ExtendedResponse(ids0[0], [], ok, None, None).pack(opts), M.SearchResultDone(ids0[1], [], ok).pack(opts)
+                middle = (M.ExtendedResponse(0, [], M.LDAPResult(M.LDAPResultCode(52), "", "bye", None), sess.NOTICE, None).pack(opts), M.UnbindRequest(0, []).pack(opts),
+                          M.ExtendedResponse(99, [], ok, None, None).pack(opts), b"\x30\x03\x02\x01\x05")[variant]
+            stream = first + middle + last
+            a, b = len(first), len(first) + len(middle)
+            cutsets = [[], [a], [b], [a, b], [a + 1], [b - 1], [1], list(range(1, len(stream)))]
+            cutsets += [sorted(rnd.sample(range(1, len(stream)), 2)) for _ in range(4)]
+            outcomes = []
+            for cuts in cutsets:
+                s, _ = fresh()
+                raised = ""
+                for x, y in zip([0] + cuts, cuts + [len(stream)]):
+                    buf = bytearray(stream[x:y])
+                    try:
+                        s.receive(buf)
+                    except Exception as ex:  # noqa: BLE001
+                        raised = C.exc_kind(ex)
+                        break
+                    finally:
+                        buf[:] = b"\xaa" * len(buf)
+                outcomes.append((raised, s.state.name))
+                n += 1
+            rep.case(("confluence", role, variant, tuple(outcomes)))
+            if len(set(outcomes)) > 1:
+                rep.violation(f"outcome-depends-on-chunking/{role}", f"a {role} stream with {('an unbind', 'a notice of disconnection', 'a protocol violation', 'a malformed unit')[variant if role == 'server' else (1, 0, 2, 3)[variant]]} "
+                              f"in its middle ends differently depending on how it is cut: {sorted(set(outcomes))}", {"role": role, "variant": variant, "outcomes": [list(o) for o in outcomes], "cuts": cutsets[:8]}, prop="C02")
+    rep.traces += n
+    rep.add_part("confluence of streams that end the session in their middle (end state compared across 12 deliveries each; judged outside TLC)", deliveries=n)
+
+
 def burst_checks(rep: C.Report, seed: int) -> None:
     """The same with 1100 and 3000 units, judged here as well (no model is needed for the expected outcome: the stream is
     well-formed and accepted, so exactly the units sent must come back, in order, as equal values, and the session must
@@ -596,9 +655,32 @@ def scenario_close_with_pending(rec: Recorder, role: str, rnd: random.Random) ->
     if rnd.random() < 0.6:
         rec.drain(rnd.choice((1, 2, 5, 10, 33)))
     how = rnd.randrange(5)
+    partial = None
+    if how == 0 or rnd.random() < 0.3:
+        # the head of a large unit is already buffered when the session closes: what arrives afterwards is refused like any
+        # other input to a closed session (or, if the session is still open, completes the unit)
+        import sansldap._messages as M
+
+        mid_ = ids[0] if (role == "client" and ids) else 40
+        big = unit_of(M.SearchResultEntry(mid_, [], "cn=big", [M.PartialAttribute("blob", [bytes(rnd.choice((600, 4000)))])]) if role == "client"
+                      else M.ExtendedRequest(mid_, [], "1.2.3", bytes(rnd.choice((600, 4000)))), rnd, alt=False)
+        cut_ = rnd.choice((3, 50, 300))
+        partial = (big, cut_)
+        rec.stream([big[1]])
+        rec.recv(big[0][:cut_])
     if how == 0:
         rec.call({"op": "unbind"})
+        if partial is not None:
+            rec.recv(partial[0][0][partial[1]:partial[1] + rnd.choice((1, 20, 100))])
+            rec.recv(b"")
+    elif partial is not None and role == "server" and rnd.random() < 0.5:
+        # the server closes itself with a notice of disconnection
+        e_ = rec.call({"op": "send", "k": "notice", "id": 0})
+        rec.recv(partial[0][0][partial[1]:partial[1] + rnd.choice((1, 20, 100))])
+        rec.recv(b"")
     else:
+        if partial is not None:   # complete the buffered unit first
+            rec.recv(partial[0][0][partial[1]:])
         if how == 1:
             unit = unit_of(sess.concrete("unbind", 0, rnd), rnd) if role == "server" else unit_of(sess.concrete("notice", 0, rnd), rnd)
         elif how == 2:
@@ -901,6 +983,7 @@ def run_traces(rep: C.Report, wd: str, tier: str, seed: int) -> None:
     rep.add_part("code->spec trace validation (SessionTrace.tla)", traces=ntr, events=len(events), families=fam, verdicts=len(verdicts))
     report_verdicts(rep, events, verdicts)
     burst_checks(rep, seed)
+    confluence_checks(rep, seed)
     for e in events[1:4]:
         rep.sample({k: (v if not isinstance(v, list) or len(v) < 30 else v[:30] + ["..."]) for k, v in e.items()})
     run_test_traces(rep, wd)
